@@ -415,14 +415,18 @@ class EntryGraph:
         return True
 
     def leaf_closure(self, term):
-        """closure body 'may be called' by a storage-update leaf (Persistent::update(key, |old| new))"""
+        """closure body that a leaf 'may call' (storage update(key, |old| new), iterator adaptors such as
+        for_each / map / try_for_each taking a workspace closure): its body is walked as a child context."""
         if self.walked(term):
             return None
-        if re.search(r'storage::(Persistent|Instance|Temporary)::(try_)?update::<', term['callee']):
-            for k in term.get('closures', []):
-                if k in self.crate.inst:
-                    return k
+        for k in term.get('closures', []):
+            if k in self.crate.inst:
+                return k
         return None
+
+    @staticmethod
+    def closure_always_called(term):
+        return re.search(r'storage::(Persistent|Instance|Temporary)::(try_)?update::<', term['callee']) is not None
 
     def _build_ctx_tree(self):
         root = self._new_ctx(self.root_key, None, None)
@@ -1161,7 +1165,13 @@ class EntryGraph:
             if bb in ctx.children:
                 ch = ctx.children[bb]
                 if ch.closure_call == 'leafclosure':
-                    out.append((ch.id, 0, env, 'call'))
+                    out.append((ch.id, 0, dict(env), 'call'))
+                    if not self.closure_always_called(t) and t['to'] >= 0:
+                        # the leaf may also not invoke the closure at all (empty iterator, None, ...)
+                        e2 = dict(env)
+                        if not t['dest'].get('p'):
+                            e2.pop((cid, t['dest']['l']), None)
+                        out.append((cid, t['to'], e2, 'ret'))
                 else:
                     args = t['args']
                     if ch.closure_call:
